@@ -155,6 +155,8 @@ extern uint64_t g_probes[64];
 struct DirSimConfig {
     bool enabled = false;
     double unknown_dtype_rate = 0.0;
+    std::string root;   // only directories at or below this (lexically normalised) path are simulated; anything else the code
+                        // under test wanders into (e.g. through "..") is served by the real libc without decisions or events
 };
 void set_dirsim(const DirSimConfig&);
 int open_handles();                  // DIR* + FILE* currently open via interposed calls (process-wide)
